@@ -150,6 +150,16 @@ CHECKS = {
         "decision table of the spec for all 33 centre x burst-type rows; no SYNC pattern is a valid EMB word (design level).",
         "Payload values are sampled (C03 covers the field space); rate-3/4 info bits are not re-derived here (C10); payload field equality is computed by the harness (value-based) and judged as a boolean.",
     ),
+    "C14": (
+        "DESIGN.md 5/C14",
+        "TLC: canonical septet forms as oracle + reader state machine (MBXMLVar.tla), Read(Canonical v) = v on all values < 2^16 and the boundaries; observed write/read calls of a dense sweep, boundaries, random values, fractions, coordinates and date-times judged by TLC",
+        "The canonical uintvar / sintvar / float-fraction octets are specified in TLA+ on 16-bit limbs and the reader as a state machine; TLC "
+        "proves Read(Canonical(v)) = v for all v < 2^16 and all septet-length boundaries and m*128^k, then compares the octets the real writers "
+        "produced (dense sweep, boundaries, random 32-bit, both signs, negative zero, fractions k/128^p for p = 1..3) with the canonical form "
+        "and the read-back value / index; coordinate and info-time writers are inverted with the XML view's formulas (info-time octets also "
+        "against the 14/4/5/5/6/6 layout).",
+        "Float and coordinate equalities are computed in IEEE doubles by the harness (TLC judges the booleans and the octets); coordinate domain is what the writers accept (non-negative).",
+    ),
 }
 
 NOT_YET = {}
